@@ -3,10 +3,12 @@ package main
 import (
 	"fmt"
 	"math"
+	"net"
 	"strconv"
 	"sync"
 	"time"
 
+	tally "github.com/uber-go/tally/v4"
 	"github.com/uber-go/tally/v4/m3"
 	m3thrift "github.com/uber-go/tally/v4/m3/thrift/v2"
 
@@ -16,7 +18,81 @@ import (
 func init() { register("C12", runC12) }
 
 func runC12(c *mon.Ctx) {
-	c.Cases(func(i int, r *mon.Rand) { c12Life(c, r, "") })
+	c.Cases(func(i int, r *mon.Rand) {
+		c12Life(c, r, "")
+		if i%10 == 0 {
+			c12Revive(c, r.Fork(12))
+		}
+	})
+}
+
+// c12Revive: the collector is down when the reporter starts (its sends are
+// refused) and comes back on the same port later. Whatever happened to the
+// batches that could not be delivered, every datagram that arrives afterwards
+// is at most MaxPacketSizeBytes long.
+func c12Revive(c *mon.Ctx, r *mon.Rand) {
+	proto := m3.Compact
+	if r.Bool() {
+		proto = m3.Binary
+	}
+	addr := mon.DeadPort()
+	maxPacket := int32(r.Range(1440, 4000))
+	opts := m3.Options{Service: "s", Env: "e", Protocol: proto, HostPorts: []string{addr}, MaxQueueSize: 4096, MaxPacketSizeBytes: maxPacket}
+	env, err := newM3Env(0, opts, nil)
+	if err != nil {
+		c.Inconclusive("NewReporter: " + err.Error())
+		return
+	}
+	defer tally.VerifSetHook(nil)
+	c.Eval(1)
+	desc := map[string]interface{}{"scenario": "collector down, then back on the same port", "protocol": protoName(proto), "max_packet": maxPacket}
+	c.LogCase(fmt.Sprint(desc))
+	stop := c.Watchdog(120*time.Second, "m3-call-or-close-does-not-return", desc)
+	defer stop()
+	var handles []tally.CachedCount
+	for k := 0; k < 12; k++ {
+		handles = append(handles, env.Rep.AllocateCounter(fmt.Sprintf("counter-with-a-name-of-some-length-%02d-%s", k, r.Ident(40)), map[string]string{"k": r.Ident(20)}))
+	}
+	burst := func(n int) {
+		for i := 0; i < n; i++ {
+			handles[r.Intn(len(handles))].ReportCount(int64(i + 1))
+		}
+		env.Rep.Flush()
+	}
+	for i := 0; i < r.Range(2, 5); i++ {
+		burst(r.Range(5, 60))
+		time.Sleep(500 * time.Microsecond) // let the refusal come back
+	}
+	udpAddr, _ := net.ResolveUDPAddr("udp4", addr)
+	conn, err := net.ListenUDP("udp4", udpAddr)
+	if err != nil {
+		c.Inconclusive("port taken: " + err.Error())
+		env.Rep.Close()
+		return
+	}
+	defer conn.Close()
+	for i := 0; i < r.Range(2, 6); i++ {
+		burst(r.Range(5, 60))
+		time.Sleep(300 * time.Microsecond)
+	}
+	env.Rep.Close()
+	conn.SetReadDeadline(time.Now().Add(300 * time.Millisecond))
+	buf := make([]byte, 70000)
+	n := 0
+	for {
+		sz, _, err := conn.ReadFromUDP(buf)
+		if err != nil {
+			break
+		}
+		n++
+		if sz > int(maxPacket) {
+			c.Violation("datagram-exceeds-max-packet-size", map[string]interface{}{"why": fmt.Sprintf("a datagram of %d bytes arrived after the collector came back, MaxPacketSizeBytes is %d", sz, maxPacket), "case": desc})
+			break
+		}
+		conn.SetReadDeadline(time.Now().Add(100 * time.Millisecond))
+	}
+	c.Event("datagrams-after-the-collector-came-back", int64(n))
+	c.Distinct(mon.Hash64("revive", fmt.Sprint(desc), fmt.Sprint(r.U64())))
 }
 
 type c12Batch struct {
